@@ -103,9 +103,10 @@ C10(i) ==
        <<"C10.wellformed_wall_parity", WallParity(s.grid)>>,
        <<"C10.wellformed_instance", WellFormedInstance(A(s))>> }
    ELSE {})
-  \* a room with only two or three possible mazes needs more keys before "all equal" is evidence of a constant
-  \cup (IF GeneratorHasChoice /\ (GeneratorHasManyChoices \/ Cardinality(ResetLines) >= 12)
-        THEN C10NonConstant(i, LAMBDA st : st.grid) ELSE {})
+  \* only rooms in which the recursive division has several wall offsets AND several passages to choose from: the
+  \* smaller rooms have one or two possible mazes (2x4: one; 3x3: two, very unevenly), where "all equal" over a few dozen
+  \* keys says nothing about the generator ignoring its key
+  \cup (IF GeneratorHasManyChoices THEN C10NonConstant(i, LAMBDA st : st.grid) ELSE {})
 
 (* ---------------- C11: time limit as requested by the harness ---------------- *)
 \* "another reason": no dirty tile left, or the step was treated as an invalid action (by the rules or by the
